@@ -117,4 +117,11 @@ CLAIMED.update({
   "technique": "symbolic execution with loop summaries and Sigma rules (extensionality, partition, non-negativity); z3",
  },
 })
+CLAIMED.update({
+ "C13": {
+  "text": "Deductive (all ri in (0,1), nr, npp, dim): gkl_radii gives the equal-area grid r_k^2 = ri^2 + (k + 1/16)(1 - ri^2)/nr; piston_orth has the constant 1/sqrt(nr) as last column and the stated entries elsewhere, every other column summing to zero (piston filter); gkl_azimuthal rows are 1, cos((i//2+1) theta) for odd i, sin((i//2) theta) for even i on the uniform theta grid (cos/sin pairing by order); pcgeom's pupil is exactly the annulus indicator ri^2 <= x^2 + y^2 <= 1 at the pixel centres x = (q - (dim-1)/2)/(dim/2) for odd and even dim. Orthonormality, zero mean, diagonalisation of the Kolmogorov covariance, ordering of the variances and the Cartesian rendering: bounded native stand-ins (labelled bounded).",
+  "note": BASE + "gkl_fcom / gkl_kernel / pol2car are not under a deductive contract (eigen-solvers, selection loops with break, map_coordinates); cos/sin/sqrt uninterpreted.",
+  "technique": "symbolic execution with loop summaries; pointwise SMT obligations (with a modular-arithmetic lemma); bounded native checks for the eigen-decomposition clauses",
+ },
+})
 NOT_APPLICABLE = {}
